@@ -305,7 +305,7 @@ impl OutstandingMessageTracker {
 //@ ret r
 //@ requires self.wf()
 //@ closure 1 ret d: AckDeadline
-//@ closure 1 ensures d == s.0
+//@ closure 1 ensures d == $1.0
 //@ proof-start { self.lemma_empty_iff(); }
 //@ ensures[C04] r.is_none() <==> self@.dom().len() == 0
 //@ ensures[C04] r.is_some() ==> exists|id: AckId| self@.dom().contains(id) && self@[id].dl() == r.unwrap()
@@ -695,7 +695,7 @@ impl SubscriptionActor {
 //@ ensures[C05] !old(self)@.deleted ==> final(self)@.backlog =~= modify_view(old(self)@, deadline_modifications@).backlog
 //@ ensures[C05] !old(self)@.deleted ==> final(self)@.next == old(self)@.next && !final(self)@.deleted
 //@ closure 1 ret msg: Arc<TopicMessage>
-//@ closure 1 ensures msg == m.msg()
+//@ closure 1 ensures msg == $1.msg()
 //@ proof-after /let nacks = self\.outstanding\.modify/ { lemma_apply_mods_inv(ModState { out: old(self)@.out, nacked: Seq::empty() }, deadline_modifications@, old(self)@.next); }
 //@end
 
@@ -705,7 +705,7 @@ impl SubscriptionActor {
 //@ # C04/C01: every expired lease's message goes back to the end of the backlog, nothing else changes
 //@ ensures[C01,C04] final(self)@ == (SubView { backlog: old(self)@.backlog + expired@.map_values(|p: PulledMessage| p.msg()), ..old(self)@ })
 //@ closure 1 ret msg: Arc<TopicMessage>
-//@ closure 1 ensures msg == p.msg()
+//@ closure 1 ensures msg == $1.msg()
 //@ proof-before /if !self\.backlog\.is_empty\(\)/ { assert(self@.backlog =~= old(self)@.backlog + expired@.map_values(|p: PulledMessage| p.msg())); }
 //@end
 
